@@ -335,6 +335,22 @@ func opKDF(w *World, s *Step) (string, string) {
 		c07Mutual(w, su, a, b, probe, s.SpiI^s.SpiR)
 		c07Keep(w, su, a, want, "party A")
 	}
+	if len(s.Nonce2) > 0 && okB {
+		// the same key object is keyed again (re-derivation with new nonces): it must then hold exactly the new keys
+		res := &callResult{}
+		guard(res, func() { res.Err = b.GenerateKeyForIKESA(clone(s.Nonce2), clone(s.Secret), s.SpiR, s.SpiI) })
+		if res.class() != "ok" {
+			w.violate("rederivation_failed", su.String(), "a second GenerateKeyForIKESA on the same key object failed: %s %v %s", res.class(), res.Err, res.Panic)
+		} else {
+			want2 := ref.DeriveIKE(su.refPrf(), su.refInteg(), su.Encr, s.Nonce2, s.Secret, s.SpiR, s.SpiI)
+			before := len(w.viol)
+			c07CheckObjects(w, su, b, want2, "party B after a second derivation on the same object", probe, s.SpiR^9)
+			for i := before; i < len(w.viol); i++ {
+				w.viol[i].Oracle = "rederivation_on_same_object_wrong"
+			}
+			w.stats.inc("c07_rederivations_on_same_object")
+		}
+	}
 	w.nontriv = true
 	w.stats.inc("synthetic_derivations")
 	return "ok", abs
@@ -372,7 +388,11 @@ func genC07(r *Rng, idx int, tier string) *Scenario {
 			}
 			sc.Steps = append(sc.Steps, st)
 		} else {
-			sc.Steps = append(sc.Steps, Step{Op: "kdf", Suite: &su, Nonce: r.Bytes(genLen512(r)), Secret: r.Bytes(genLen512(r)), SpiI: r.U64(), SpiR: r.U64()})
+			st := Step{Op: "kdf", Suite: &su, Nonce: r.Bytes(genLen512(r)), Secret: r.Bytes(genLen512(r)), SpiI: r.U64(), SpiR: r.U64()}
+			if r.Chance(1, 4) {
+				st.Nonce2 = r.Bytes(genLen512(r))
+			}
+			sc.Steps = append(sc.Steps, st)
 		}
 	}
 	return sc
